@@ -219,6 +219,30 @@ def run(ctx):
                 V('recorded-block-refused', "recorded block %d no longer passes full validation after altered copies of recorded "
                   "blocks had been offered (and refused) in the same process: %r" % (h, e), {'k': 'rec'})
                 break
+    # the network's wire format at every checkpointed height (and at the heights where the height field changes width): a
+    # block encoded by the check's own encoder - which reproduces the recorded real blocks byte for byte - is read by the
+    # implementation, keeps the id sha256d(header bytes) and is written back identically.  (The real blocks at these heights
+    # are not available offline; their FORMAT is.)
+    if all(b is not None for b in blocks):
+        hs = sorted(set(T.keys()) | {63, 64, 127, 128, 8191, 8192, 16383, 16384, 2097151, 2097152})
+        for (hh, hexid, raw), b in zip(recorded, blocks):
+            if enc.enc_block(b) != raw:
+                V('recorded-id', "the check's reference encoder does not reproduce recorded block %d" % hh, {'k': 'rec'})
+        for h in hs:
+            n += 1
+            blk = cand_block(h, blocks[0].hash(), blocks[1].timestamp, target=blocks[0].target)
+            wire = enc.enc_block(blk)
+            hdr = wire[:len(wire) - len(enc.enc_txlist(blk.transactions))]
+            try:
+                dec = Block.deserialize(wire)
+                ok = dec.hash() == enc.sha256d(hdr) and dec.serialize() == wire and dec.height == h
+                why = "id / bytes / height differ after decoding"
+            except Exception as e:
+                ok, why = False, "cannot be decoded: %r" % (e,)
+            if not ok:
+                V('network-format-height-%s' % ('checkpointed' if h in T else 'boundary'), "a block at height %d in the network's wire "
+                  "format %s" % (h, why), {'k': 'rec'})
+                break
     # a restarted node: recorded blocks 1..3 and a competing block at height 4 were written to the block store; the chain state
     # is rebuilt by the start-up loader (read_chain_from_disk); the recorded blocks 4 and 5 then arrive and must still pass
     if all(b is not None for b in blocks) and len(blocks) >= 6:
